@@ -33,12 +33,21 @@ type syncResults struct{ items []scan.Result }
 func (s *syncResults) Put(r scan.Result)        { s.items = append(s.items, r) }
 func (s *syncResults) Chan() <-chan scan.Result { return nil }
 
+// c06kept: a record as it was when it was emitted (the engine buffers up to 1000 records before
+// the logger prints them, so a record must not change when later frames are processed).
+type c06kept struct {
+	rec   scan.Result
+	snap  []byte
+	frame int
+}
+
 type c06proc struct {
 	name  string
 	proto uint8 // ProtoTCP / ProtoICMP / 0 = arp
 	link  oracle.Link
 	p     packet.Processor
 	sink  *syncResults
+	kept  []c06kept
 }
 
 func c06procs() []*c06proc {
@@ -50,12 +59,12 @@ func c06procs() []*c06proc {
 			link, sfx = oracle.LinkRawIP, "vpn"
 		}
 		s1 := &syncResults{}
-		out = append(out, &c06proc{"tcp-" + sfx, oracle.ProtoTCP, link, tcp.NewScanMethod("tcpflags", nil, s1, tcp.WithScanVPNmode(vpn)), s1})
+		out = append(out, &c06proc{"tcp-" + sfx, oracle.ProtoTCP, link, tcp.NewScanMethod("tcpflags", nil, s1, tcp.WithScanVPNmode(vpn)), s1, nil})
 		s2 := &syncResults{}
-		out = append(out, &c06proc{"icmp-" + sfx, oracle.ProtoICMP, link, icmp.NewPacketProcessor("icmp", s2, vpn), s2})
+		out = append(out, &c06proc{"icmp-" + sfx, oracle.ProtoICMP, link, icmp.NewPacketProcessor("icmp", s2, vpn), s2, nil})
 	}
 	s3 := &syncResults{}
-	out = append(out, &c06proc{"arp-eth", 0, oracle.LinkEthernet, arp.NewScanMethod(nil, s3), s3})
+	out = append(out, &c06proc{"arp-eth", 0, oracle.LinkEthernet, arp.NewScanMethod(nil, s3), s3, nil})
 	return out
 }
 
@@ -289,6 +298,9 @@ func c06feed(run *vlab.Run, p *c06proc, frame []byte, hist [][]byte, pos int) (o
 	}
 	run.Count("records", 1)
 	rec := recs[0]
+	if snap, err := rec.MarshalJSON(); err == nil && len(p.kept) < 64 {
+		p.kept = append(p.kept, c06kept{rec, snap, pos})
+	}
 	if chain == oracle.No {
 		d := oracle.Decode(frame, p.link)
 		run.Violation(p.name+":phantom-record", fmt.Sprintf("record %q for a frame that lacks the %s header chain (%v); frame %x", rec.String(), p.name, d.Problems, truncate(frame, 120)), witness())
@@ -359,11 +371,22 @@ func TestVerifC06(t *testing.T) {
 			hx = append(hx, fmt.Sprintf("%x", f))
 		}
 		run.Case(label, map[string]interface{}{"processor": p.name, "history": strings.Join(hx, " ")})
+		p.kept = p.kept[:0]
 		for i, f := range hist {
 			if !c06feed(run, p, f, hist, i) {
 				renew(pi)
 				p = procs[pi]
 			}
+		}
+		// records are printed later than they are emitted: they must still say what they said then
+		for _, k := range p.kept {
+			now, err := k.rec.MarshalJSON()
+			if err != nil || string(now) != string(k.snap) {
+				run.Violation(p.name+":record-changed-after-emission", fmt.Sprintf("the record emitted for frame %d of the history read %s then and reads %s after the later frames were processed (shared state between records)", k.frame, k.snap, now),
+					map[string]interface{}{"processor": p.name, "history": hx})
+				break
+			}
+			run.Count("records_rechecked_after_history", 1)
 		}
 		run.Count("histories", 1)
 	}
